@@ -218,7 +218,21 @@ pub fn sub_record(r: &mut Rng) -> Value {
     json!({"k": "sub", "n": n, "h": h, "obs": o})
 }
 
-pub fn record(path: &str, family: &str, count: usize, seed: u64, force: &str) -> u64 {
+/// Keep only the observations whose kind is in `kinds` (empty = all) and, for substring records,
+/// whose entry belongs to the requested group ("api": top-level/Finder/iterators, "block": low-level searchers).
+fn filter_obs(rec: &mut Value, kinds: &[&str], group: &str) {
+    let is_block = |e: &str| e.starts_with("twoway::") || e.starts_with("rabinkarp::") || e.starts_with("shiftor::") || e.contains("packedpair::");
+    if let Some(arr) = rec.get_mut("obs").and_then(|o| o.as_array_mut()) {
+        arr.retain(|o| {
+            let t = o["t"].as_str().unwrap_or("");
+            let e = o["e"].as_str().unwrap_or("");
+            (kinds.is_empty() || kinds.contains(&t)) && (group == "all" || (group == "block") == is_block(e))
+        });
+    }
+}
+
+pub fn record(path: &str, family: &str, count: usize, seed: u64, force: &str, kinds: &str, group: &str) -> u64 {
+    let kinds: Vec<&str> = kinds.split(',').filter(|x| !x.is_empty()).collect();
     memchr::verif::set_force(force);
     let mut f = std::io::BufWriter::new(std::fs::File::create(path).unwrap());
     let mut r = Rng::new(seed ^ 0x5EED);
@@ -234,6 +248,11 @@ pub fn record(path: &str, family: &str, count: usize, seed: u64, force: &str) ->
                 }
             }
         };
+        let mut rec = rec;
+        filter_obs(&mut rec, &kinds, group);
+        if rec["obs"].as_array().map_or(true, |a| a.is_empty()) {
+            continue;
+        }
         writeln!(f, "{}", rec).unwrap();
     }
     f.flush().unwrap();
